@@ -626,8 +626,8 @@ func (c *Collection) FindOne(ctx context.Context, filter interface{}, opts ...*o
 
 // selectAndProject returns the document a find-one-and-modify call yields and
 // applies the projection. It is called inside the transaction so that a failing
-// projection aborts the write instead of reporting an error for a write that
-// took effect.
+// projection aborts the write (the caller reverts a session transaction to its
+// checkpoint) instead of reporting an error for a write that took effect.
 func selectAndProject(result *Result, returnAfter bool, projection bsonkit.Doc) (bsonkit.Doc, error) {
 	// get doc
 	var doc bsonkit.Doc
@@ -698,6 +698,7 @@ func (c *Collection) FindOneAndDelete(ctx context.Context, filter interface{}, o
 	// error for a delete that took effect
 	res, err := useTransaction(ctx, c.engine, true, func(txn *Transaction) (interface{}, error) {
 		// delete document
+		revert := txn.checkpoint()
 		res, err := txn.Delete(c.handle, query, sort, 0, 1)
 		if err != nil {
 			return nil, err
@@ -715,6 +716,7 @@ func (c *Collection) FindOneAndDelete(ctx context.Context, filter interface{}, o
 		if projection != nil {
 			list, err = mongokit.ProjectList(list, projection)
 			if err != nil {
+				revert()
 				return nil, err
 			}
 		}
@@ -803,11 +805,17 @@ func (c *Collection) FindOneAndReplace(ctx context.Context, filter, replacement 
 
 	// insert document
 	res, err := useTransaction(ctx, c.engine, true, func(txn *Transaction) (interface{}, error) {
+		revert := txn.checkpoint()
 		result, err := txn.Replace(c.handle, query, sort, repl, upsert)
 		if err != nil {
 			return nil, err
 		}
-		return selectAndProject(result, returnAfter, projection)
+		doc, err := selectAndProject(result, returnAfter, projection)
+		if err != nil {
+			revert()
+			return nil, err
+		}
+		return doc, nil
 	})
 	if err != nil {
 		return &SingleResult{err: err}
@@ -896,11 +904,17 @@ func (c *Collection) FindOneAndUpdate(ctx context.Context, filter, update interf
 
 	// update documents
 	res, err := useTransaction(ctx, c.engine, true, func(txn *Transaction) (interface{}, error) {
+		revert := txn.checkpoint()
 		result, err := txn.Update(c.handle, query, sort, upd, 0, 1, upsert, arrayFilters)
 		if err != nil {
 			return nil, err
 		}
-		return selectAndProject(result, returnAfter, projection)
+		doc, err := selectAndProject(result, returnAfter, projection)
+		if err != nil {
+			revert()
+			return nil, err
+		}
+		return doc, nil
 	})
 	if err != nil {
 		return &SingleResult{err: err}
